@@ -427,4 +427,29 @@ PROPS = {
         "assumptions": [],
         "real": LZ_REAL, "stub": LZ_STUB + ["the judge: model/reflzma, refxz and the reference .lz parser in scen_ref.cpp"],
     },
+
+    "C15": {
+        "level": "exploration",
+        "legs": {
+            "quick": [{"flavour": "asan", "runs": 40000, "seconds": 120}],
+            "thorough": [{"flavour": "asan", "runs": 800000, "seconds": 1200}],
+        },
+        "nontrivial": "features",
+        "level_text": "The streaming BCJ coders (held-back tail, x86 prev_mask carried across calls, end-of-input flush) and the delta "
+                      "coder are driven through the public raw encoder/decoder under delivery schedules aimed at instruction "
+                      "boundaries (1-byte, 1-9 byte, random, one byte at a time around an aimed offset), with instruction-dense "
+                      "inputs generated per architecture, every start-offset class (none, small, near 2^32) and delta distance "
+                      "1-256. The filtered bytes are extracted by decoding only the LZMA2 layer. Oracles: streaming encoder output == "
+                      "model/refbcj whole-buffer transform (fixes the meaning of the transform, so a symmetric change is caught); "
+                      "streaming decoder on arbitrary bytes == reference decode transform; decode(encode(x)) == x under another "
+                      "delivery; length preserved; one-shot lzma_bcj_{x86,arm64,riscv}_{encode,decode} == streaming coder.",
+        "level_note": "Oracle-riding: the transform-is-fixed clause is a pure-function clause, checked only as the oracle of the "
+                      "streaming runs. RISC-V has no reference implementation here: for it only inverse, length, delivery "
+                      "independence and one-shot == streaming are checked.",
+        "rule": "One evaluation = one (filter, input, start offset, delivery) case run through four coder sessions. "
+                "distinct_nontrivial = distinct (filter, start-offset used, delivery style, size bucket) tuples among cases where the "
+                "filter changed at least one byte.",
+        "assumptions": ["inputs <= 12 KB (quick) / 60 KB (thorough)"],
+        "real": LZ_REAL, "stub": LZ_STUB + ["the judge: model/refbcj"],
+    },
 }
